@@ -118,7 +118,7 @@ func checkC03(c *Case) (*Violation, caseInfo) {
 		place := "body"
 		f := byP[p][0]
 		switch {
-		case f.Table != nil && hasTH(f.Table):
+		case f.DataTbl != nil:
 			place = "data-table"
 		case f.Table != nil:
 			place = "layout-table"
